@@ -731,7 +731,63 @@ func c15i(c *Ctx) {
 			return true
 		})
 		inst := f.Name + " entry bundle with every level-0 tile"
+		// the bundle upload may be delegated to one same-package helper: a function whose only upload is the
+		// data-tile upload and which reports success only through that upload's success edge
+		var viaHelper *Func
+		if len(dataUp) == 0 {
+			for _, s := range f.Find(func(n ast.Node) bool { _, ok := n.(*ast.CallExpr); return ok }) {
+				fn, ok := calleeObj(info, s.X.(*ast.CallExpr)).(*types.Func)
+				if !ok {
+					continue
+				}
+				h := c.P.FuncOf(fn.Origin())
+				if h == nil || h == f || h.Body == nil || h.Pkg != f.Pkg {
+					continue
+				}
+				ups := h.Calls(specUpload)
+				if len(ups) != 1 || optsVarOf(h, argByName(h.Info(), ups[0].Call, "opts")) != "optsDataTile" {
+					continue
+				}
+				okE, _ := gateEdges(ups, OutNil)
+				var succ []Site
+				for _, r := range h.Returns() {
+					if e := h.errResultExpr(r.X.(*ast.ReturnStmt)); e != nil && h.mayBeNilError(e) {
+						succ = append(succ, r)
+					}
+				}
+				if len(okE) == 0 || len(succ) == 0 {
+					continue
+				}
+				if pt, _ := h.Graph().ReachableFromEntry(Cut{Edges: okE}, atAnySite(succ)); pt != nil {
+					continue
+				}
+				c.touch(h)
+				s.Call = s.X.(*ast.CallExpr)
+				dataUp = append(dataUp, s)
+				viaHelper = h
+			}
+		}
+		inLoopNode := func(n ast.Node) bool { return loop != nil && loop.Body.Pos() <= n.Pos() && n.End() <= loop.Body.End() }
 		switch {
+		case len(dataUp) == 1 && len(hashUp) == 1 && loop != nil && !inLoopNode(dataUp[0].X):
+			// the bundle is written outside the tile loop: it must be complete before the first hash tile is
+			head := rangeHead(g, loop)
+			okE, _ := gateEdges(dataUp, OutNil)
+			switch {
+			case head == nil:
+				c.Unk(inst, "tile loop head not found")
+			case len(okE) == 0:
+				c.Bad(inst, dataUp[0].Pos(), "the error of the entry bundle upload is not tested")
+			default:
+				if pt, path := g.ReachableFromEntry(Cut{Edges: okE}, atSite(hashUp[0])); pt != nil {
+					c.Bad(inst, hashUp[0].Pos(), "a level-0 hash tile can be written before its entry bundle is stored (path "+g.describePath(path)+"): after a failure in between, the hash tile whose presence short-cuts ensureCutTiles exists without the entries it covers, and the mirror can sign a size it cannot serve")
+				} else {
+					c.add(Result{Instance: inst, Verdict: Discharged, Evals: 1, Sites: []string{dataUp[0].Pos(), hashUp[0].Pos()}, Detail: "the bundle upload succeeded before the tile loop is entered", Witnesses: f.WitEdges(okE)})
+				}
+			}
+			if viaHelper != nil {
+				c.OK(f.Name+" entry bundle key", "delegated to "+viaHelper.Name+" (its single upload uses optsDataTile)", []string{dataUp[0].Pos()})
+			}
 		case len(dataUp) != 1 || len(hashUp) != 1 || loop == nil || tileObj == nil:
 			c.Unk(inst, fmt.Sprintf("anchors: data uploads=%d hash uploads=%d NewTiles loop=%v", len(dataUp), len(hashUp), loop != nil))
 		default:
@@ -766,19 +822,48 @@ func c15i(c *Ctx) {
 			// the bundle is the tile of the same index, level -1
 			k := argByName(info, dataUp[0].Call, "key")
 			okKey := false
-			ast.Inspect(f.ResolveDeep(k).E, func(n ast.Node) bool {
-				if call, ok := n.(*ast.CallExpr); ok && matchCallee(info, call, Callee{pkgTorch, "", "TilePath"}) && len(call.Args) == 1 {
-					dt := objOf(info, call.Args[0])
-					if dt != nil && tileLevelAt(f, dt, dataUp[0]) == "-1" {
-						for _, d := range f.Defs(dt) {
-							if d.Rhs != nil && objOf(info, d.Rhs) == tileObj {
-								okKey = true
+			if viaHelper != nil {
+				// delegated: the tile handed to the helper is the L = -1 copy, and the helper's key is TilePath of that parameter
+				hinfo := viaHelper.Info()
+				hup := viaHelper.Calls(specUpload)[0]
+				var tileParam types.Object
+				ast.Inspect(viaHelper.ResolveDeep(argByName(hinfo, hup.Call, "key")).E, func(n ast.Node) bool {
+					if call, ok := n.(*ast.CallExpr); ok && matchCallee(hinfo, call, Callee{pkgTorch, "", "TilePath"}) && len(call.Args) == 1 {
+						if o := objOf(hinfo, call.Args[0]); o != nil && isParamOrRecv(viaHelper, o) {
+							tileParam = o
+						}
+					}
+					return true
+				})
+				if tileParam != nil {
+					if arg := argForParam(viaHelper, dataUp[0].Call, tileParam); arg != nil {
+						dt := objOf(info, arg)
+						if dt != nil && tileLevelAt(f, dt, dataUp[0]) == "-1" {
+							for _, d := range f.Defs(dt) {
+								if d.Rhs != nil && objOf(info, d.Rhs) == tileObj {
+									okKey = true
+								}
 							}
 						}
 					}
 				}
-				return true
-			})
+				k = nil
+			}
+			if k != nil {
+				ast.Inspect(f.ResolveDeep(k).E, func(n ast.Node) bool {
+					if call, ok := n.(*ast.CallExpr); ok && matchCallee(info, call, Callee{pkgTorch, "", "TilePath"}) && len(call.Args) == 1 {
+						dt := objOf(info, call.Args[0])
+						if dt != nil && tileLevelAt(f, dt, dataUp[0]) == "-1" {
+							for _, d := range f.Defs(dt) {
+								if d.Rhs != nil && objOf(info, d.Rhs) == tileObj {
+									okKey = true
+								}
+							}
+						}
+					}
+					return true
+				})
+			}
 			if okKey {
 				c.OK(f.Name+" entry bundle key", "TilePath of a copy of the level-0 tile with L = -1", []string{dataUp[0].Pos()})
 			} else {
